@@ -54,6 +54,11 @@ FORCED = [
     [("other", ["UID STORE 1:* +FLAGS (\\Flagged)"]), (None, ["RENAME other other2"]), ("INBOX", ["UID COPY 1 other"])],
     [("INBOX", ["APPEND INBOX"]), ("INBOX", ["APPEND INBOX"]), ("INBOX", ["UID MOVE 1:* other"])],
     [("INBOX", ["UID STORE 1:* +FLAGS (\\Deleted)", "EXPUNGE"]), ("INBOX", ["UID STORE 1:* -FLAGS (\\Deleted)"])],
+    # two commands already executing (one disjoint from, one overlapping the newcomer's messages) when a third arrives
+    [("INBOX", ["UID FETCH 5 (FLAGS BODY.PEEK[HEADER.FIELDS (X-CID)] BODY.PEEK[])"]), ("INBOX", ["UID COPY 1:4 other"]), ("INBOX", ["UID STORE 1:4 +FLAGS (\\Flagged)"])],
+    [("INBOX", ["UID FETCH 5 (FLAGS BODY.PEEK[HEADER.FIELDS (X-CID)] BODY.PEEK[])"]), ("INBOX", ["UID FETCH 1:4 (FLAGS BODY.PEEK[HEADER.FIELDS (X-CID)] BODY.PEEK[])"]), ("INBOX", ["UID STORE 1:4 +FLAGS (\\Flagged)"])],
+    [("INBOX", ["UID STORE 5 +FLAGS (kwx)"]), ("INBOX", ["UID MOVE 1:3 other"]), ("INBOX", ["UID STORE 2:4 +FLAGS (\\Answered)"])],
+    [("INBOX", ["UID COPY 5 other"]), ("INBOX", ["UID COPY 1:4 other"]), ("INBOX", ["UID STORE 1:4 FLAGS (\\Draft)"]), ],
     # POP3 QUIT with marks while IMAP works on INBOX
     [("pop3", ["DELE 1", "DELE 3", "QUIT"]), ("INBOX", ["UID COPY 1:5 other"]), ("INBOX", ["EXPUNGE"])],
     [("pop3", ["DELE 2", "QUIT"]), ("INBOX", ["UID MOVE 1:3 other"])],
